@@ -510,6 +510,48 @@ func space(first int) {
 	}
 }
 
+// timingProduct: resolution x tempo x gap, with a chord (two messages in the
+// same millisecond) behind the gap: 12 resolutions x 15 tempi (among them the
+// pairs that make a tick a binary fraction of a millisecond: 240 at 125, 480
+// at 62.5, 100 at 150, 96 at 78.125) x gaps 0..64, 100, 250, 999..1001 ms x
+// three gaps behind the chord.
+func timingProduct(part, parts int) {
+	var a, b, c ls.SMsg
+	for _, m := range alphabet {
+		switch m.Name {
+		case "NoteOn0a":
+			a = m
+		case "NoteOn0b":
+			b = m
+		case "NoteOff0":
+			c = m
+		}
+	}
+	if a.Bytes == nil || b.Bytes == nil || c.Bytes == nil {
+		ctx.Guard(false, "timing product: alphabet lacks the three note messages")
+		return
+	}
+	gs := []int32{100, 250, 999, 1000, 1001}
+	for g := int32(0); g <= 64; g++ {
+		gs = append(gs, g)
+	}
+	k := 0
+	for _, res := range []smf.MetricTicks{24, 48, 96, 100, 120, 192, 240, 384, 480, 960, 1920, 15360} {
+		for _, bpm := range []float64{20, 30, 60, 62.5, 78.125, 90, 100, 120, 125, 150, 180, 200, 250, 300, 400} {
+			k++
+			if k%parts != part {
+				continue
+			}
+			for _, g := range gs {
+				for _, g2 := range []int32{0, 1, 7} {
+					record([]ls.SMsg{a, b, c}, []int32{g, 0, g2}, bpm, res, "track")
+					ctx.Add("timing_product_recordings", 1)
+				}
+			}
+		}
+	}
+}
+
 // twoRecordings: two in ports record into the same SMF at overlapping times
 // (SMF.RecordFrom twice); every track must hold exactly the channel messages
 // of its own port, in order.
@@ -613,6 +655,7 @@ func main() {
 	ctx.Assume("which messages 'arrive' is decided by the reference receiver (DESIGN.md appendix A) fed with the bytes sent; whether non-channel messages are stored (as valid events) or dropped is not judged, only that the file stays valid")
 	ctx.Assume("timing tolerance: one tick per stored delta up to the message (each delta is rounded separately)")
 	ctx.Jobs("record", len(alphabet), func(j int) { space(j) })
+	ctx.Jobs("timing-product", 16, func(j int) { timingProduct(j, 16) })
 	ctx.Jobs("two-ports", 1, func(int) { twoRecordings(); recordTo(); reusingDriver(); queuedDriver() })
 	ctx.Set("message_alphabet", len(alphabet))
 	ctx.Set("tempi", tempi)
